@@ -335,18 +335,80 @@ var (
 
 func store() *mcache.Store { return mcache.VerifC03Store(pc) }
 
-func newPipe(ecs bool) {
+// pipeCfg is the operator configuration of one pipeline: ECS forwarding ceilings,
+// per-family scope floors, prefetch percentage.
+type pipeCfg struct{ f4, f6, m4, m6, prefetch int }
+
+var curCfg pipeCfg
+
+// upstream stands in for whatever answers a cache miss or a background refresh:
+// it records the question it was ASKED (that is what the answer was obtained for)
+// and answers with the next harness id.
+type askedRec struct {
+	id  int
+	q   dns.Question
+	cd  bool
+	ecs *dns.EDNS0_SUBNET
+}
+
+type upstream struct {
+	nextID int
+	asked  []askedRec
+}
+
+func reqECS(m *dns.Msg) *dns.EDNS0_SUBNET {
+	if opt := m.IsEdns0(); opt != nil {
+		for _, o := range opt.Option {
+			if s, ok := o.(*dns.EDNS0_SUBNET); ok {
+				return s
+			}
+		}
+	}
+	return nil
+}
+
+func (u *upstream) answer(req *dns.Msg, scopeBits int) *dns.Msg {
+	rec := askedRec{id: u.nextID, q: req.Question[0], cd: req.CheckingDisabled, ecs: reqECS(req)}
+	u.nextID++
+	u.asked = append(u.asked, rec)
+	resp := new(dns.Msg)
+	resp.SetReply(req)
+	resp.RecursionAvailable = true
+	resp.Answer = markerRRs(rec.q.Name, rec.q.Qtype, rec.q.Qclass, rec.id, "")
+	if scopeBits >= 0 && rec.ecs != nil {
+		o := new(dns.OPT)
+		o.Hdr.Name, o.Hdr.Rrtype = ".", dns.TypeOPT
+		o.Option = []dns.EDNS0{&dns.EDNS0_SUBNET{Code: dns.EDNS0SUBNET, Family: rec.ecs.Family,
+			SourceNetmask: rec.ecs.SourceNetmask, SourceScope: uint8(scopeBits), Address: rec.ecs.Address}}
+		resp.Extra = []dns.RR{o}
+	}
+	return resp
+}
+
+// Query implements middleware.Queryer for the prefetch sub-pipeline.
+func (u *upstream) Query(_ context.Context, req *dns.Msg) (*dns.Msg, error) {
+	return u.answer(req, -1), nil
+}
+
+var up = &upstream{}
+
+func newPipe(ecs bool, pcf pipeCfg) {
 	if pc != nil {
 		pc.Stop()
 	}
-	cfg := &config.Config{Expire: 300, CacheSize: 1024, Prefetch: 0, RateLimit: 0, Maxdepth: 30}
+	cfg := &config.Config{Expire: 300, CacheSize: 1024, Prefetch: uint32(pcf.prefetch), RateLimit: 0, Maxdepth: 30}
 	cfg.Timeout.Duration = 10 * time.Second
 	if ecs {
-		cfg.ECS = config.ECSConfig{Enabled: true, ForwardV4Max: 32, ForwardV6Max: 128, MinScopeV4: 32, MinScopeV6: 128}
+		cfg.ECS = config.ECSConfig{Enabled: true, ForwardV4Max: uint8(pcf.f4), ForwardV6Max: uint8(pcf.f6),
+			MinScopeV4: uint8(pcf.m4), MinScopeV6: uint8(pcf.m6)}
 	}
 	pc = mcache.New(cfg)
+	mcache.VerifC03SyncPrefetch(pc)
+	up = &upstream{}
+	pc.SetPrefetchQueryer(up)
 	pe = edns.New(cfg)
 	ecsOn = ecs
+	curCfg = pcf
 	entries = map[int]*storedEntry{}
 	failures = map[int]*storedFailure{}
 	cuts = map[int]*storedCut{}
@@ -545,11 +607,21 @@ func msgQuery(r reqSpec) *dns.Msg {
 }
 
 // serve runs one request through edns→cache→terminal. route: msg | wire.
-func serve(route string, r reqSpec) (out string, reply *dns.Msg, via string) {
+// ansSpec makes the terminal handler answer (an upstream) instead of only noting the miss.
+type ansSpec struct {
+	id        int
+	scopeBits int // -1: no ECS option in the response
+}
+
+func serve(route string, r reqSpec, ans *ansSpec) (out string, reply *dns.Msg, via string) {
 	writer := mock.NewWriter("udp", "198.51.100.77:40000")
 	reached := false
 	terminal := middleware.HandlerFunc(func(_ context.Context, ch *middleware.Chain) {
 		reached = true
+		if ans != nil {
+			up.nextID = ans.id
+			_ = ch.Writer.WriteMsg(up.answer(ch.Request.Msg(), ans.scopeBits))
+		}
 		ch.Cancel()
 	})
 	before := mcache.VerifC03WireCounters()
@@ -575,6 +647,9 @@ func serve(route string, r reqSpec) (out string, reply *dns.Msg, via string) {
 	}
 	if reached {
 		if writer.Written() {
+			if ans != nil {
+				return "answered", writer.Msg(), "via-upstream"
+			}
 			return "miss+written", writer.Msg(), via
 		}
 		return "miss", nil, "via-miss"
@@ -955,9 +1030,117 @@ func strictPurge() bool { return os.Getenv("C03_STRICT_PURGE") != "" }
 
 func execPipe(f []string) vlib.Res {
 	switch f[1] {
-	case "new": // pipe new <ecs on|off>
-		newPipe(f[2] == "on")
+	case "new": // pipe new <ecs on|off> [fwd4,fwd6,min4,min6,prefetch%]
+		pcf := pipeCfg{32, 128, 32, 128, 0}
+		if len(f) > 3 {
+			v := strings.Split(f[3], ",")
+			pcf = pipeCfg{vlib.Atoi(v[0]), vlib.Atoi(v[1]), vlib.Atoi(v[2]), vlib.Atoi(v[3]), vlib.Atoi(v[4])}
+		}
+		newPipe(f[2] == "on", pcf)
 		return vlib.Res{Impl: "ok"}
+	case "age": // pipe age <id>: the entry enters its prefetch window
+		se := entries[vlib.Atoi(f[2])]
+		if se == nil || se.ptr == nil {
+			return vlib.Res{Impl: "no-such-entry"}
+		}
+		mcache.VerifC03Age(se.ptr)
+		return vlib.Res{Impl: "ok"}
+	case "drain": // pipe drain <first id>: run the queued background refreshes (real processPrefetch)
+		up.nextID = vlib.Atoi(f[2])
+		up.asked = nil
+		var parts []string
+		or := "ok"
+		mcache.VerifC03DrainPrefetch(pc, func(key uint64, refreshed *mcache.CacheEntry) {
+			if len(up.asked) == 0 {
+				parts = append(parts, "not-asked")
+				return
+			}
+			rec := up.asked[len(up.asked)-1]
+			ptr, ok := store().LookupByKey(key)
+			replaced := false
+			if ok {
+				if ids := markerIDs(mcache.VerifC03EntryMsg(ptr)); len(ids) > 0 && ids[len(ids)-1] == rec.id {
+					replaced = true
+				}
+			}
+			al, _ := oPresLabels(rec.q.Name)
+			// the answer was obtained for the question the upstream was ASKED
+			entries[rec.id] = &storedEntry{labels: al, qtype: rec.q.Qtype, class: rec.q.Qclass, cd: rec.cd, ptr: ptr}
+			parts = append(parts, fmt.Sprintf("asked=%s,%d,%d,%s id=%d r=%s", presTok(rec.q.Name), rec.q.Qtype, rec.q.Qclass, vlib.B(rec.cd), rec.id, vlib.B(replaced)))
+			// oracle: a refresh re-asks the question, in the partition, of the entry it refreshes
+			old := mcache.VerifC03EntryIdent(refreshed)
+			ol, _ := oPresLabels(old.Q.Name)
+			switch {
+			case !oLabelsFoldEq(ol, al) || old.Q.Qtype != rec.q.Qtype || old.Q.Qclass != rec.q.Qclass:
+				or = "FAIL sig=pipe/drain/refresh-asked-another-question"
+			case old.CD != rec.cd:
+				or = "FAIL sig=pipe/drain/refresh-asked-in-the-other-cd-partition"
+			}
+			if replaced {
+				got := mcache.VerifC03EntryIdent(ptr)
+				if got.CD != rec.cd {
+					or = fmt.Sprintf("FAIL sig=pipe/drain/answer-to-cd=%s-question-filed-in-cd=%s-partition", vlib.B(rec.cd), vlib.B(got.CD))
+				}
+			}
+		})
+		if len(parts) == 0 {
+			return vlib.Res{Impl: "none", Oracle: "ok"}
+		}
+		return vlib.Res{Impl: strings.Join(parts, ";"), Oracle: or, Tags: "nt,refresh"}
+	case "ask": // pipe ask <msg|wire> <ident> <client> <id> <scope bits|->   (a miss reaches an upstream that answers)
+		r := reqSpec{id: parseIdent(f[3]), client: parseScope(f[4])}
+		ans := &ansSpec{id: vlib.Atoi(f[5]), scopeBits: -1}
+		if f[6] != "-" {
+			ans.scopeBits = vlib.Atoi(f[6])
+		}
+		up.asked = nil
+		out, _, via := serve(f[2], r, ans)
+		if out != "answered" {
+			return vlib.Res{Impl: out, Oracle: judge("pipe/ask-"+f[2], out, r, hasECSOpt(r)), Tags: "nt," + via}
+		}
+		rec := up.asked[len(up.asked)-1]
+		al, _ := oPresLabels(rec.q.Name)
+		// the audience the authority (and the operator's floor) allow this answer to have
+		allowed := netip.Prefix{}
+		if rec.ecs != nil && ans.scopeBits > 0 {
+			bits := min(ans.scopeBits, int(rec.ecs.SourceNetmask))
+			var a netip.Addr
+			if rec.ecs.Family == 1 {
+				a, _ = netip.AddrFromSlice(rec.ecs.Address.To4())
+				bits = min(bits, curCfg.m4)
+			} else {
+				a, _ = netip.AddrFromSlice(rec.ecs.Address.To16())
+				bits = min(bits, curCfg.m6)
+			}
+			if bits > 0 {
+				allowed = netip.PrefixFrom(a, bits).Masked()
+			}
+		}
+		se := &storedEntry{labels: al, qtype: rec.q.Qtype, class: rec.q.Qclass, cd: rec.cd, scope: allowed}
+		entries[rec.id] = se
+		impl := fmt.Sprintf("ans %d unstored", rec.id)
+		or := "ok"
+		store().ForEach(func(_ bool, key uint64, e *mcache.CacheEntry) bool {
+			ids := markerIDs(mcache.VerifC03EntryMsg(e))
+			if len(ids) == 0 || ids[len(ids)-1] != rec.id {
+				return true
+			}
+			se.ptr = e
+			got := mcache.VerifC03EntryIdent(e)
+			impl = fmt.Sprintf("ans %d key=%s scope=%s", rec.id, u64hex(key), fmtScope(got.Scope))
+			own := xxhash.Sum64(oPreimage(got.Q.Name, got.Q.Qtype, got.Q.Qclass, got.CD, oNorm(got.Scope)))
+			switch {
+			case got.CD != rec.cd:
+				or = "FAIL sig=pipe/ask/answer-filed-in-another-cd-partition"
+			case key != own:
+				or = "FAIL sig=pipe/ask/answer-filed-under-a-foreign-key"
+			case allowed.IsValid() && !(got.Scope.IsValid() && got.Scope.Addr().Is4() == allowed.Addr().Is4() &&
+				got.Scope.Bits() >= allowed.Bits() && allowed.Contains(got.Scope.Addr())):
+				or = fmt.Sprintf("FAIL sig=pipe/ask/stored-for-a-wider-audience-than-scope-source-and-floor-allow stored=%s allowed=%s", fmtScope(got.Scope), allowed)
+			}
+			return false
+		})
+		return vlib.Res{Impl: impl, Oracle: or, Tags: "nt,via-upstream"}
 	case "set": // pipe set <keyspec> <ident> <id> <alias|->
 		id := parseIdent(f[3])
 		eid := vlib.Atoi(f[4])
@@ -1042,7 +1225,7 @@ func execPipe(f []string) vlib.Res {
 				out = classify(m)
 			}
 		} else {
-			out, _, via = serve(f[2], r)
+			out, _, via = serve(f[2], r, nil)
 		}
 		or := judge("pipe/get-"+f[2], out, r, hasECSOpt(r))
 		tags := "nt," + via
